@@ -31,7 +31,7 @@ for name in sorted(os.listdir(os.path.join(HERE, "seeded"))):
         continue
     m = json.load(open(mp))
     title = m["needs_to_manifest"].split("\n")[0].lstrip("# ").strip()
-    title = re.sub(r"^(Change|Seed|C\d\d change) ?\d* ?[-:—(]*\s*", "", title)
+    title = re.sub(r"^(C\d\d\s+)?(round 2,?\s*)?(Change|Seed|change|seed)?\s*\d*\s*(\(C\d\d,? round 2\)|\(round 2\)|round 2\))?\s*[-:—(]*\s*", "", title)
     caught = "; ".join(f"{k}: `{esc(v['signatures'][0])[:90]}`" if v["quick"] == "CAUGHT" and v.get("signatures") else f"{k}: {v['quick'].lower()}" for k, v in m.get("checks", {}).items())
     rows.append(f"| {name} | {esc(title)[:150]} | {FIRST.get(name, '?')} | {caught} |")
 put("seeds2", "\n".join(rows))
